@@ -552,6 +552,10 @@ def _link_old(I, pre, post, seen=None):
 HOSTILE_STRINGS = ['a\\nb', 'x{0}y', '{', 'a"b', "it's <b>&amp;", 'two words', '\\', '0', ' ']
 
 
+REPLAY_BUDGET_S = float(os.environ.get('PYVC_REPLAY_BUDGET_S', '240'))
+_replay_spent = [0.0]
+
+
 def write_replay(pid, r, ob, contracts, repo):
     d = os.path.join(OUT, 'replays', pid)
     os.makedirs(d, exist_ok=True)
@@ -568,8 +572,15 @@ def write_replay(pid, r, ob, contracts, repo):
     else:
         c = contracts[r['idx']]
         hook = getattr(c, 'replay_hook', None)
+        import time as _time
+        _t0 = _time.time()
         try:
-            if hook is not None:
+            if _replay_spent[0] > REPLAY_BUDGET_S:
+                # a change that breaks hundreds of obligations: the first ones were replayed natively, the rest are reported with the
+                # solver's model only (the time budget for native replays of one run is spent)
+                res = {'reproduced': False, 'why': 'native replay skipped: the replay budget of this run (%.0f s) is spent' % REPLAY_BUDGET_S}
+                hook = 'skip'
+            elif hook is not None:
                 res = hook(ob, repo)
             else:
                 res = native_replay(pid, c, ob, repo)
@@ -590,6 +601,7 @@ def write_replay(pid, r, ob, contracts, repo):
                     res = dict(res2, witness_search='string inputs replaced by the hostile text %r' % cand)
                     rec['model_inputs'] = ob2['inputs']
                     break
+        _replay_spent[0] += _time.time() - _t0
         rec['replay'] = res
         reproduced = bool(res.get('reproduced'))
     rec['reproduced'] = reproduced
